@@ -11,7 +11,8 @@ open IpcHub.Flv IpcHub.FlvSpec
 
 /-- what the property needs to know about the stream, read off the muxer's metadata -/
 def srcOf (vm : VideoMeta) (am : AudioMeta) : Src :=
-  { codec := vm.codec, aac := am.aac, sps := vm.sps, pps := vm.pps, vps := vm.vps, asc := am.asc }
+  { codec := vm.codec, aac := am.aac, sps := vm.sps, pps := vm.pps, vps := vm.vps, asc := am.asc,
+    valid := vm.width != 0 || (if vm.codec = .h265 then vm.hevcSps.isSome else vm.avcSpsOk) }
 
 /-- the decoded profile_tier_level as plain numbers -/
 def ptlNat (p : HevcPtl) : Ptl :=
